@@ -665,6 +665,24 @@ def hole_rule(ctx):
     return obs
 
 
+def wave10_rules(ctx):
+    """obligations added after the tenth wave of seeded changes (all shared: the same code carries the other property too)"""
+    from share import relabel
+    obs = []
+    # a conditional always yields a Condition slice holding both branches: its path is the path of the branch taken (C06)
+    from rules.c06 import wave8_rules as c06_w8
+    obs += relabel(c06_w8(ctx), "C06.paths/Cond/result", "C11.cond/result")
+    # the module path of an inline script is the path it is registered under (C13)
+    from rules.c13 import same_rule
+    obs += relabel(same_rule(ctx), "C13.same/inline-descriptor", "C11.prefix/inline-descriptor")
+    # what the expression generator pastes after `.` is a validated member name, never a string value: value and path then
+    # address the same member (C02.holes)
+    from rules.c02 import holes_rule
+    o, _sites = holes_rule(ctx)
+    obs += relabel(o, "C02.holes/Expression::to_proc_gen_rec", "C11.member/holes")
+    return obs
+
+
 def wave7_rules(ctx):
     """obligations added after the seventh wave of seeded changes"""
     import guards as G
@@ -726,6 +744,7 @@ def run(ctx):
         obs = r
     obs += guard_rule(ctx)
     obs += wave7_rules(ctx)
+    obs += wave10_rules(ctx)
     obs += ternary_rule(ctx)
     obs += never_rule(ctx)
     from rules.c07 import emit_rule
